@@ -76,7 +76,7 @@ type flushRec struct {
 	wal      []byte
 	post     []byte // data file after the flush
 	order    []uint64
-	hdrAt    int // number of page writes that preceded the header write (-1: no header write seen)
+	hdrAt    int         // number of page writes that preceded the header write (-1: no header write seen)
 	acked    *model.DB   // model of all acknowledged statements at flush begin
 	inflight *model.Stmt // CREATE TABLE in progress, if any
 }
